@@ -30,6 +30,7 @@ ASSUMPTIONS = ['alpha, shift rational (every float is); phases multiples of 1/L 
                'Gaussian-integer input data; comparison tolerance 1e-9*(1+max|model|)']
 RULE = ('random dft2/idft2/round-trip cases: shapes 1..7 (odd, even, 1, non-square), alpha_r, alpha_c = p/q independent, '
         'shifts k/4 or k/2, offsets in [-6,6], both flags, out in {None, complex buffer, f itself, float buffer, wrong shape} (dft2 and idft2); '
+        'histories of 2-4 dft2/idft2 calls on one (input shape, output shape) pair alternating shifted and unshifted calls, each decided as if made first; '
         'non-trivial = m*n>1 and at least two of {alpha_r!=alpha_c, shift!=0, offset!=0, MxN!=mxn}')
 
 TOL = 1e-9
@@ -40,6 +41,8 @@ def lcm(a, b):
 
 
 def case_L(c):
+    if c['op'] == 'hist':
+        return 1
     ar, ac = Fraction(c['ar']), Fraction(c['ac'])
     sr, sc = Fraction(c.get('shr', 0)), Fraction(c.get('shc', 0))
     L = lcm(ar.denominator * sr.denominator, ac.denominator * sc.denominator)
@@ -61,9 +64,36 @@ def rnd_data(rng, m, n):
     return [[[rng.randint(-8, 8), rng.randint(-8, 8)] for _ in range(n)] for _ in range(m)]
 
 
+def gen_history(rng, maxn):
+    """2-4 dft2/idft2 calls in one process on the SAME (input shape, output shape) pair, alternating shifted and
+    unshifted calls (and offsets): each call must be the defining sum as if it were the first call of the process"""
+    while True:
+        m, n = rng.randint(1, maxn), rng.randint(1, maxn)
+        M, N = (m, n) if rng.random() < 0.4 else (rng.randint(1, maxn), rng.randint(1, maxn))
+        ar, ac = rnd_alpha(rng, m), rnd_alpha(rng, n)
+        calls = []
+        k = rng.randint(2, 4)
+        first_shifted = rng.random() < 0.7
+        for i in range(k):
+            shifted = (i % 2 == 0) == first_shifted
+            fn = rng.choice(['dft2', 'dft2', 'idft2'])
+            cl = {'fn': fn, 'f': rnd_data(rng, m, n),
+                  'shr': str(Fraction(rng.choice([-5, -3, -2, -1, 1, 2, 3, 5]), rng.choice([1, 2, 4]))) if shifted else '0',
+                  'shc': str(Fraction(rng.choice([-5, -3, -2, -1, 1, 2, 3, 5]), rng.choice([1, 2, 4]))) if shifted and rng.random() < 0.8 else '0',
+                  'unitary': rng.random() < 0.5}
+            if fn == 'dft2':
+                cl['offr'] = rng.randint(-4, 4) if rng.random() < 0.4 else 0
+                cl['offc'] = rng.randint(-4, 4) if rng.random() < 0.4 else 0
+            calls.append(cl)
+        c = {'op': 'hist', 'ar': str(ar), 'ac': str(ac), 'M': M, 'N': N, 'calls': calls}
+        return c
+
+
 def generate(rng, tier):
     n_cases = 160 if tier == 'quick' else 2500
     maxn = 6 if tier == 'quick' else 7
+    for _ in range(40 if tier == 'quick' else 400):
+        yield gen_history(rng, maxn)
     out = 0
     while out < n_cases:
         t = rng.random()
@@ -98,10 +128,14 @@ def generate(rng, tier):
 
 
 def classify(c):
+    if c['op'] == 'hist':
+        return 'hist/' + '-'.join(cl['fn'] + ('*' if Fraction(cl['shr']) != 0 or Fraction(cl['shc']) != 0 else '') for cl in c['calls'])
     return c['op'] + ('/' + c.get('out', 'none') if c['op'] in ('dft2', 'idft2') else '') + ('/unitary' if c.get('unitary') else '')
 
 
 def nontrivial(c):
+    if c['op'] == 'hist':
+        return len(c['calls'][0]['f']) * len(c['calls'][0]['f'][0]) > 1
     m, n = len(c['f']), len(c['f'][0])
     if m * n <= 1:
         return False
@@ -147,7 +181,7 @@ def encode(c):
                 + C.enc_q(Fraction(c['shr'])) + C.enc_q(Fraction(c['shc'])) + [1 if c['unitary'] else 0] + enc_out(c))
     if c['op'] == 'roundtrip':
         return [3, L] + enc_f(c['f']) + [1 if c['unitary'] else 0]
-    return None
+    return None      # histories: every call is decided by the oracle (the single calls are compared with the model above)
 
 
 def decode(c, ints):
@@ -184,8 +218,44 @@ def make_out(c, f):
     return np.zeros((c['M'] + 1, c['N']), dtype=complex)
 
 
+def fresh_state():
+    """every case starts as if it were the first call of the process: memoised helpers of the library are emptied
+    (state carried between calls is exercised deliberately, inside the history cases)"""
+    import sys
+    for name, mod in list(sys.modules.items()):
+        if name == 'lentil' or name.startswith('lentil.'):
+            for v in list(vars(mod).values()):
+                cc = getattr(v, 'cache_clear', None)
+                if callable(cc):
+                    try:
+                        cc()
+                    except Exception:
+                        pass
+
+
+def run_history(lentil, c):
+    alpha = (float(Fraction(c['ar'])), float(Fraction(c['ac'])))
+    out = []
+    for cl in c['calls']:
+        f = to_np(cl['f'])
+        shift = (float(Fraction(cl['shr'])), float(Fraction(cl['shc'])))
+        try:
+            if cl['fn'] == 'dft2':
+                F = lentil.fourier.dft2(f, alpha, shape=(c['M'], c['N']), shift=shift, offset=(cl['offr'], cl['offc']),
+                                        unitary=cl['unitary'])
+            else:
+                F = lentil.fourier.idft2(f, alpha, shape=(c['M'], c['N']), shift=shift, unitary=cl['unitary'])
+            out.append({'arr': np.asarray(F).tolist()})
+        except Exception as e:
+            out.append({'err': type(e).__name__})
+    return {'calls': out}
+
+
 def run_impl(c):
     lentil = C.import_lentil()
+    fresh_state()
+    if c['op'] == 'hist':
+        return run_history(lentil, c)
     f = to_np(c['f'])
     alpha = (float(Fraction(c['ar'])), float(Fraction(c['ac'])))
     try:
@@ -266,6 +336,17 @@ def defining_sum(f, ar, ac, M, N, shr, shc, offr, offc, unitary):
 
 
 def oracle(c, impl):
+    if c['op'] == 'hist':
+        for k, (cl, r) in enumerate(zip(c['calls'], impl['calls'])):
+            one = {'op': cl['fn'], 'f': cl['f'], 'ar': c['ar'], 'ac': c['ac'], 'M': c['M'], 'N': c['N'],
+                   'shr': cl['shr'], 'shc': cl['shc'], 'offr': cl.get('offr', 0), 'offc': cl.get('offc', 0),
+                   'unitary': cl['unitary'], 'out': 'none'}
+            msg = oracle(one, r)
+            if msg:
+                prev = [(p['fn'], p['shr'], p['shc']) for p in c['calls'][:k]]
+                return (f'call {k + 1} of {len(c["calls"])} in one process ({cl["fn"]}, shift ({cl["shr"]}, {cl["shc"]}), '
+                        f'same shapes as the earlier calls {prev}): ' + msg)
+        return None
     f = c['f']
     ar, ac = Fraction(c['ar']), Fraction(c['ac'])
     if c['op'] == 'dft2':
